@@ -8,7 +8,7 @@ META = dict(
                 "oracle next to the Go formula and the real dag-pb serializer. TLC proves the incremental bookkeeping equal "
                 "to that size on the edit state machine (M); every link class (name length x CID layout x Tsize varint "
                 "class) and every Data-field class (mode x mtime sign/magnitude/nanosecond class), all edit sequences of "
-                "depth 2/3 and (thorough) simulated 60-op sequences are replayed on a real BasicDirectory in block mode "
+                "depth 2/3 are replayed on a real BasicDirectory in block mode "
                 "comparing the in-package estimatedSize, len(RawData()), both Go formulas and the sharding decision at the "
                 "two thresholds around the size (G); random 60-op histories with reloads are recorded from the real code "
                 "and validated event by event by TraceDirSize (T)."),
@@ -35,8 +35,8 @@ def run(ctx):
     behs = ctx.tlc_gen("DirSize", "GenDirSize.tla", "GenDirSize.cfg" if quick else "GenDirSizeThorough.cfg", timeout=3000)
     if not behs:
         return
-    if not quick:
-        behs += ctx.tlc_gen("DirSize", "GenDirSize.tla", "GenDirSizeSim.cfg", simulate=40, depth=61 * 10 + 1, timeout=1800)
+    # (long random sequences over the full class alphabet are phase T's job: TLC -simulate enumerates all ~1000
+    #  successors of every step and managed only 86 sequences in 30 min)
     binp = ctx.go_build("ipld/unixfs/io", ["ipld/unixfs/io/zz_verif_C17_test.go"])
 
     def nontrivial(b):
